@@ -20,7 +20,12 @@ package confirm
 //@          sha512(substr(b64url_dec(val(vals, "GetToken")), 32, 32)) == b64std_dec(ConfirmVerifier(u))
 //@   ensures[C05] spent_on_use: each Store.Save(?s) -> _ => ConfirmSelector(s) == "" && ConfirmVerifier(s) == "" && Confirmed(s)
 //@   ensures[C05] only_own_record: each Store.Save(?s) -> _ => PID(s) == old(PID(s)) && Password(s) == old(Password(s))
-//@   ensures[C05] never_touches_session: !emits Sess.Put(_, _) && !emits Sess.Del(_) && !emits Cook.Put(_, _)
+//@   -- every answer is either the invalid-token one or follows the save that spent the token
+//@   -- (an accepted link is never left outstanding, whatever state the account is in)
+//@   ensures[C05] accepted_means_spent: each Redirect(?ro) =>
+//@       ((ro.Failure == loc(c.Authboss, TxtInvalidConfirmToken) && ro.Success == "" && ro.RedirectPath == c.Authboss.Config.Paths.ConfirmNotOK) ||
+//@        (before Store.Save(_) -> ?e :: e == nil))
+//@   ensures[C05] never_touches_session: !emits Sess.Put(_, _) && !emits Sess.Del(_) && !emits Sess.DelAll(_) && !emits Cook.Put(_, _)
 //@   ensures[C18] no_panic: !panics
 //@   ensures[C18] save_error_outcome: each Store.Save(_) -> ?e => e != nil ==> (result == e && !emits Redirect(_))
 //@   ensures[C18] load_error_outcome: each Store.LoadByConfirmSelector(_) -> (_, ?e) => (e != nil && e != ErrUserNotFound) ==> (result == e && !emits Store.Save(_))
@@ -30,7 +35,7 @@ package confirm
 //@   -- C16(a): for a confirmed account the handler is transparent - the answer of a login
 //@   -- attempt is decided by the other modules alone
 //@   ensures[C16] confirmed_transparent: (!panics && ctxuser(r) != nil && Confirmed(ctxuser(r))) ==>
-//@       (result.0 == false && result.1 == nil && !emits Redirect(_) && !emits Respond(_, _, _) && !emits Sess.Put(_, _) && !emits Sess.Del(_) &&
+//@       (result.0 == false && result.1 == nil && !emits Redirect(_) && !emits Respond(_, _, _) && !emits Sess.Put(_, _) && !emits Sess.Del(_) && !emits Sess.DelAll(_) &&
 //@        !emits Cook.Put(_, _) && !emits Cook.Del(_) && !emits HeaderSet(_, _, _) && !emits WriteHeader(_, _) && !emits Write(_, _) && !emits HTTPRedirect(_, _, _))
 //@   ensures[C17] no_secret_leak: secrets_clean
 //@   -- the login may only continue (false, nil) for a confirmed account
@@ -54,7 +59,7 @@ package confirm
 //@   ensures[C18] no_panic: !panics
 //@
 //@ func (*Confirm).StartConfirmation
-//@   property C05 C19 C17
+//@   property C05 C19 C18 C17
 //@   ensures[C17] no_secret_leak: secrets_clean
 //@   -- (re)starting confirmation stores fresh selector/verifier and marks the account unconfirmed
 //@   ensures[C05,C19] fresh_pair: each Store.Save(?s) -> _ => !Confirmed(s) &&
@@ -62,9 +67,14 @@ package confirm
 //@           ConfirmSelector(s) == b64std(sha512(substr(raw, 0, 32))) &&
 //@           ConfirmVerifier(s) == b64std(sha512(substr(raw, 32, 32))))
 //@   ensures[C05] mail_after_save: each Mail.Send(_) => before Store.Save(_) -> ?e :: e == nil
+//@   -- C18: a failed save is an error outcome - no success is reported for a confirmation
+//@   -- state that was not stored
+//@   ensures[C18] save_error_outcome: each Store.Save(_) -> ?e => e != nil ==> (result != nil && !emits Mail.Send(_))
+//@   ensures[C18] no_panic: !panics
 //@
 //@ func (*Confirm).StartConfirmationWeb
-//@   property C19
+//@   property C19 C18
+//@   ensures[C18] save_error_outcome: each Store.Save(_) -> ?e => e != nil ==> (result.1 != nil && !emits Redirect(_))
 //@   -- the post-register hook takes over the response, so registration does not log the user in
 //@   ensures intercepts: result.1 == nil ==> (result.0 && emits Redirect(_) && emits Store.Save(?s) -> ?e :: e == nil && !Confirmed(s))
 //@   ensures never_touches_session: !emits Sess.Put(_, _)
